@@ -581,3 +581,114 @@ Proof.
     destruct (decode (load f be) j st) as [[p1 s1]|]; [|discriminate]. cbn in E. injection E as <- <-.
     cbn. now rewrite String.eqb_refl.
 Qed.
+
+(* ---- stored documents never embed a named template --------------------------------------------------------------- *)
+Notation nin := no_inline_named.
+Lemma nin_expr e : nin (enc_expr e) = true. Proof. now destruct e. Qed.
+Lemma nin_list {A} (g : A -> json) l : (forall x, nin (g x) = true) -> nin (JList (map g l)) = true.
+Proof. intros H. cbn. induction l; cbn; [reflexivity|]. now rewrite H. Qed.
+Lemma nin_vexpr v : nin (enc_vexpr v) = true.
+Proof. destruct v; [apply nin_expr|]. apply nin_list, nin_expr. Qed.
+Lemma nin_chan c : nin (enc_chan c) = true. Proof. now destruct c. Qed.
+Lemma nin_ochan c : nin (enc_ochan c) = true. Proof. destruct c as [[|]|]; reflexivity. Qed.
+Lemma nin_entry e : nin (enc_entry e) = true.
+Proof. destruct e as [[t v] i]. unfold enc_entry. cbn. rewrite nin_expr, nin_vexpr. now destruct i. Qed.
+Lemma nin_entries l : nin (JList (map enc_entry l)) = true. Proof. apply nin_list, nin_entry. Qed.
+Lemma nin_meas m : nin (enc_meas m) = true.
+Proof. destruct m as [[n b] l]. unfold enc_meas. cbn. now rewrite !nin_expr. Qed.
+Lemma nin_measl l : nin (enc_measl l) = true. Proof. apply nin_list, nin_meas. Qed.
+Lemma nin_strs l : nin (enc_strs l) = true. Proof. now apply nin_list. Qed.
+Lemma nin_chans l : nin (JList (map enc_chan l)) = true. Proof. apply nin_list, nin_chan. Qed.
+
+Lemma nin_obj {A} (kf : A -> string) (g : A -> json) (m : list A) :
+  forallb (fun a => negb (String.eqb (kf a) K_TYPE)) m = true -> (forall x, nin (g x) = true) ->
+  nin (JObj (map (fun a => (kf a, g a)) m)) = true.
+Proof.
+  intros Hk Hg. cbn [no_inline_named].
+  pose proof (has_key_map_false kf g m Hk) as Hh. unfold has_key in Hh.
+  destruct (lookup K_TYPE (map (fun a => (kf a, g a)) m)); [discriminate|]. cbn [andb].
+  clear -Hg. induction m; cbn; [reflexivity|]. now rewrite Hg.
+Qed.
+Lemma nin_cdict {A} (g : A -> json) (m : list (chan * A)) : str_keys m = true -> (forall x, nin (g x) = true) ->
+  nin (JObj (map (fun ce => (key_chan (fst ce), g (snd ce))) m)) = true.
+Proof.
+  intros H Hg. apply (nin_obj (fun ce : chan * A => key_chan (fst ce)) (fun ce => g (snd ce))); [now apply str_keys_no_type|auto].
+Qed.
+Lemma nin_sdict {A} (g : A -> json) (m : list (string * A)) : ok_skeys m = true -> (forall x, nin (g x) = true) ->
+  nin (JObj (map (fun ke => (fst ke, g (snd ke))) m)) = true.
+Proof. intros H Hg. apply (nin_obj (fun ke : string * A => fst ke) (fun ke => g (snd ke))); auto. Qed.
+
+Lemma nin_tentries e : str_keys e = true -> nin (enc_entries key_chan e) = true.
+Proof. intros. apply (nin_cdict (fun l => JList (map enc_entry l))); auto using nin_entries. Qed.
+Lemma nin_ecdict m : str_keys m = true -> nin (enc_cdict key_chan m) = true.
+Proof. intros. apply (nin_cdict enc_expr); auto using nin_expr. Qed.
+Lemma nin_cmap m : str_keys m = true -> nin (enc_cmap key_chan m) = true.
+Proof. intros. apply (nin_cdict enc_ochan); auto using nin_ochan. Qed.
+Lemma nin_pmap m : ok_skeys m = true -> nin (enc_pmap m) = true.
+Proof. intros. apply (nin_sdict enc_expr); auto using nin_expr. Qed.
+Lemma nin_mmap m : ok_skeys m = true -> nin (enc_mmap m) = true.
+Proof. intros. now apply (nin_sdict JStr). Qed.
+Lemma nin_scalar sc : scalar_ok sc = true -> nin (enc_scalar key_chan sc) = true.
+Proof. destruct sc; cbn [scalar_ok enc_scalar]; intros; [apply nin_expr|now apply nin_ecdict]. Qed.
+Lemma nin_range a b c : nin (JList [enc_expr a; enc_expr b; enc_expr c]) = true.
+Proof. cbn. now rewrite !nin_expr. Qed.
+
+Definition fields_ok (p : pt) : Prop :=
+  doc_fields_ok (to_data p) = true /\ (pt_id p = None -> nin (to_data p) = true).
+
+Lemma sub_nin c : fields_ok c -> nin (sub false to_data c) = true.
+Proof. intros [_ H]. unfold sub. destruct (pt_id c); [reflexivity|auto]. Qed.
+
+Lemma nin_subs subs : Forall fields_ok subs -> nin (JList (map (sub false to_data) subs)) = true.
+Proof. intros H. cbn. induction H; cbn; [reflexivity|]. now rewrite sub_nin. Qed.
+
+Ltac nins :=
+  repeat first [ rewrite nin_expr | rewrite nin_strs | rewrite nin_measl | rewrite nin_entries | rewrite nin_chans
+               | rewrite nin_chan | rewrite nin_range
+               | rewrite nin_tentries by assumption | rewrite nin_ecdict by assumption | rewrite nin_cmap by assumption
+               | rewrite nin_pmap by assumption | rewrite nin_mmap by assumption | rewrite nin_scalar by assumption
+               | rewrite sub_nin by assumption | rewrite nin_subs by assumption ].
+
+Ltac hd h := unfold fields_ok, doc_fields_ok, to_data; cbn [to_data_gen tag_of pt_hdr pt_id]; change (to_data_gen key_chan false) with to_data;
+  destruct h as [? [?|]]; cbn [hdr_fields h_id h_oid app].
+Ltac fo k enc l := destruct (opt_field_cases k enc l) as [[-> ->]| ->].
+
+Lemma nin_str s : nin (JStr s) = true. Proof. reflexivity. Qed.
+Lemma nin_obj_intro fs :
+  match lookup K_TYPE fs with
+  | Some (JStr t) => String.eqb t T_REF || negb (has_key K_ID fs)
+  | Some _ => false
+  | None => true
+  end = true -> forallb (fun kv => nin (snd kv)) fs = true -> nin (JObj fs) = true.
+Proof. intros H1 H2. cbn [no_inline_named]. now rewrite H1, H2. Qed.
+Ltac atoms := cbn [forallb snd fst andb]; repeat rewrite nin_str; nins; reflexivity.
+Ltac go := split; [atoms | let Hn := fresh in intros Hn; first [discriminate Hn | apply nin_obj_intro; [reflexivity|atoms]]].
+
+Lemma documents_ok : forall p, wf p = true -> fields_ok p.
+Proof.
+  induction p using pt_ind2; intros Hwf; cbn [wf pt_hdr] in Hwf; split_and.
+  - hd h; go.
+  - hd h; fo "parameter_constraints" enc_strs c; fo "measurements" enc_measl m; cbn [app]; go.
+  - hd h; go.
+  - hd h; go.
+  - assert (Hc : Forall fields_ok subs).
+    { rewrite Forall_forall in *. rewrite forallb_forall in *. auto. }
+    hd h; fo "parameter_constraints" enc_strs c; fo "measurements" enc_measl m; cbn [app]; go.
+  - specialize (IHp ltac:(assumption)). hd h; fo "parameter_constraints" enc_strs c; fo "measurements" enc_measl m; cbn [app]; go.
+  - specialize (IHp ltac:(assumption)). destruct r as [[ra rb] rc].
+    hd h; fo "parameter_constraints" enc_strs c; fo "measurements" enc_measl m; cbn [app]; go.
+  - specialize (IHp ltac:(assumption)).
+    hd h; fo "parameter_mapping" enc_pmap pm; fo "measurement_mapping" enc_mmap mm;
+      fo "channel_mapping" (enc_cmap key_chan) cm; fo "parameter_constraints" enc_strs c; cbn [app]; go.
+  - assert (Hc : Forall fields_ok subs).
+    { rewrite Forall_forall in *. rewrite forallb_forall in *. auto. }
+    hd h; fo "parameter_constraints" enc_strs c; fo "measurements" enc_measl m; destruct du; cbn [some_field app]; go.
+  - specialize (IHp ltac:(assumption)). hd h; go.
+  - specialize (IHp ltac:(assumption)).
+    change (match sc with SExpr _ => true | SMap m => str_keys m end) with (scalar_ok sc) in *.
+    hd h; destruct l; cbn [app]; go.
+  - specialize (IHp1 ltac:(assumption)). specialize (IHp2 ltac:(assumption)).
+    hd h; fo "measurements" enc_measl m; cbn [app]; go.
+  - specialize (IHp ltac:(assumption)). hd h; go.
+  - hd h; destruct ch, pn, mn, ig, du; cbn [some_field app]; go.
+Qed.
